@@ -275,3 +275,15 @@ Example C12_history_example :
   Caps.commands c = [1; 2] /\
   observe (build c) FHover = VObj 1 None None /\ forallb registration h = true.
 Proof. vm_compute. repeat split. Qed.
+
+(* ---- sessions ---------------------------------------------------------------------------------
+   One server may be initialised more than once.  In the model the k-th result is lsp_initialize of
+   the k-th inputs whatever was initialised before, and every workspace it hands over uses the
+   encoding advertised by THAT initialize; clauses (i)-(vi) above therefore hold for each step. *)
+Theorem C12_session :
+  (forall cs1 cs2 c k d, nth_error cs1 k = Some c -> nth_error cs2 k = Some c ->
+     nth k (session cs1) d = lsp_initialize c /\ nth k (session cs2) d = lsp_initialize c) /\
+  (forall cs r, In r (session cs) ->
+     workspace_encoding r = observe (server_capabilities r) FPositionEncoding).
+Proof. split; [exact session_independent|exact session_workspace]. Qed.
+Print Assumptions C12_session.
